@@ -197,6 +197,40 @@ def history_forgeries(ctx):
                                                                                                                "history": "protect via DC; protect from cache; unprotect forged"}, out[:80], "error")
 
 
+def big_contents(ctx):
+    """large plaintexts whose length sits on the chunk sizes a streaming decryptor would use (4 KiB … 128 KiB, ± one AES block), with
+    bits of the ciphertext body and of the tag flipped (real crypto, both layouts): a chunked implementation must still verify the tag"""
+    recs = [r for r in clientsim.standard_roots(real=True) if r.secret_algorithm == "ECDH_P256"][:1]
+    for rec in recs:
+        for n in (4096, 16384, 65536 - 16, 65536, 65536 + 1, 131072, 131072 + 5, 196608):
+            data = bytes((i * 131 + n) & 0xFF for i in range(min(n, 4096))) * (n // min(n, 4096)) + b"x" * (n % min(n, 4096)) if n >= 4096 else bytes(n)
+            data = data[:n]
+            dc = refdc.KeyServer(now=(361, 17, 13))
+            dc.add_root(rec)
+            s = clientsim.Sim(dc, real_crypto=True)
+            with s.world():
+                s.load(rec)
+                out = s.protect(data, "S-1-5-21-1-2-3-1103", rk=rec.id)
+            if not out.startswith("done "):
+                continue        # (protect of large data is C01's concern)
+            blob = bytes.fromhex(out[5:])
+            for layout in ("in-envelope", "trailing"):
+                b = blob if layout == "in-envelope" else der.to_trailing(blob)
+                ct0 = len(b) - n - 16            # the content (ciphertext ‖ tag) is the tail of the blob in both layouts
+                for kind, off in (("ct-first", ct0), ("ct-middle", ct0 + n // 2), ("ct-last", ct0 + n - 1), ("tag-first", ct0 + n), ("tag-last", len(b) - 1)):
+                    m = b[:off] + bytes([b[off] ^ 0x01]) + b[off + 1:]
+                    s2 = clientsim.Sim(dc, real_crypto=True)
+                    with s2.world():
+                        s2.load(rec)
+                        got = s2.unprotect(m, no_reply=True)
+                    ctx.count(f"real:big:{kind}")
+                    if got is not None and got.startswith("done ") and got != "done " + hx(data):
+                        ctx.violation("a modified blob decrypts to different plaintext", {"config": [rec.hash_name, rec.secret_algorithm, "cache", layout], "mutation": f"bitflip:{kind}",
+                                                                                        "plaintext_len": n, "scenario": "big_contents", "real_crypto": True},
+                                      f"{len(got) // 2} octets, differing from the original", "error or the original plaintext")
+                        return
+
+
 def work(job):
     """one (config, layout) in a worker process → (cases, violations, counts)"""
     import random, check
@@ -270,6 +304,7 @@ def run(ctx):
     ctx.compare_batch(allcases, nontrivial=lambda line, impl: True)
     ctx.count("configurations", len(jobs))
     history_forgeries(ctx)
+    big_contents(ctx)
 
 
 def search(ctx, broken, disagreements):
@@ -278,6 +313,12 @@ def search(ctx, broken, disagreements):
 
 def replay(ctx, payload):
     v = payload["violation"]["input"]
+    if v.get("scenario") == "big_contents":
+        c2 = type(ctx)(ctx.prop, "quick", ctx.seed)
+        big_contents(c2)
+        for x in c2.violations:
+            print(" ", x["what"], x["input"], x["observed"])
+        return not c2.violations
     if "history" in v:
         c2 = type(ctx)(ctx.prop, "quick", ctx.seed)
         history_forgeries(c2)
